@@ -20,7 +20,8 @@ NOT_PROVED = {
  "C10": ["panic freedom is proved on the MODEL VALUES at the enumerated panic sites (PanicFree.v lists every site with its Rust location and status); sites not covered: Instant::now() + interval (time not modelled), arithmetic on in-memory sizes and byte counters (no bound in the model), allocation failure, std internals; the enumeration itself is by reading the Rust source and is trusted",
          "two shapes are excluded by premises and recorded as known findings: F6 (record at position u64::MAX, debug builds) and F9 (a WAL file longer than a full file + a ~32 KiB queue name: assert in RollingWriter::write during the recovery-time GC)",
          "allocation bound is not stated as a theorem"],
- "C11": [],
+ "C11": ["plans (site read, kind UnexpectedEof) are outside C11_fired_is_io (premise reportable): the code cannot tell such an error from a short file; C11_absorbed_* describe the behaviour (treated as end of that file) instead of an I/O report",
+         "failure points without a hook site (set_len after create_new, flush/sync/write errors during recovery's closing writes, remove_file errors, read_dir entry errors) are not quantified over"],
  "C12": [
    "proved end to end for crashes (batch_crash, any policy) and for CRC-detected damage (batch_damage_self / batch_damage_other); header-field damage (length, type byte) is covered by the oracle only (and is where known finding F4 lives); power-loss images: oracle only"
   ],
